@@ -2411,12 +2411,40 @@ fn run(st: &Shared, mode: Mode, tier: Tier) -> RunReport {
                 ch.span_begin();
                 // the thorough tier also draws 200-clause functions (spills
                 // for every register budget, long choice arrays)
+                // (the quick tier draws functions beyond 128 and 256 clauses
+                // too, less often: size thresholds of caches and fast paths -
+                // seeded change C04-w keeps a cache entry only for tapes of
+                // 128 clauses or more)
                 let max_ops = if tier == Tier::Thorough {
-                    *ch.pick("fn_size", &[6usize, 12, 30, 60, 120, 200])
+                    *ch.pick("fn_size", &[6usize, 12, 30, 60, 120, 200, 320])
                 } else {
-                    *ch.pick("fn_size", &[6usize, 12, 30, 60, 120])
+                    *ch.pick("fn_size", &[6usize, 12, 30, 60, 120, 12, 30, 200, 320])
                 };
-                let f = gen_func(ch, max_ops);
+                let mut f = gen_func(ch, max_ops);
+                // ballast: a small function (few choices, so that traces
+                // which prune nothing and simplifications that come out "not
+                // shorter" stay common) made *long* by a choice-free chain of
+                // 130 or 260 operations hanging off one of its inputs and added
+                // to its first output (added after seeded change C04-w: size
+                // thresholds of caches and fast paths are reached by small-
+                // function behaviour too)
+                if max_ops <= 30 && ch.odds("fn_ballast", 1, 5) {
+                    use crate::gen_::{Bin, Ex};
+                    let leaf = f.dag.n.iter().position(|e| {
+                        matches!(e, Ex::X | Ex::Y | Ex::Z | Ex::V(_))
+                    });
+                    if let Some(leaf) = leaf {
+                        let links = *ch.pick("fn_ballast_links", &[65usize, 130]);
+                        let half = f.dag.c(0.5);
+                        let quarter = f.dag.c(0.25);
+                        let mut t = leaf;
+                        for _ in 0..links {
+                            let m = f.dag.b(Bin::Mul, t, half);
+                            t = f.dag.b(Bin::Add, m, quarter);
+                        }
+                        f.outputs[0] = f.dag.b(Bin::Add, f.outputs[0], t);
+                    }
+                }
                 ch.span_end(nf_at);
                 f
             })
